@@ -51,7 +51,6 @@ func appendRemainderOfString(data []byte, dst []byte) ([]byte, int, error) {
   pe := len(data)
   eof := len(data)
   var segStart int
-  dst = growBytesSliceCapacity(dst, len(dst) + len(data))
   var unescapeUnicodeCharBytes int
   var ok bool
 
